@@ -17,7 +17,8 @@ EXPLANATION = (
     'module-level container that grows outside import-time registration; (C05.3) sources of nondeterminism '
     '(random, clock, uuid, id/hash, environment, iteration over sets) are reachable only through RAND, RANDBETWEEN, '
     'NOW, TODAY or are identity uses; (C05.4) no shared mutable global state: each evaluator copies the function '
-    'table in its constructor body, the decimal rounding mode is only changed inside a local context.')
+    'table in its constructor body, the decimal rounding mode is only changed inside a local context.'
+    ' (C05.2) also: a memoised plain function is keyed by arguments that are provably plain strings at every call site (1 == 1.0 == True, and the value classes compare by Excel semantics with equal hashes: whichever key arrives first would decide later results).')
 NOT_DECIDED = 'resident-set measurements; equality of values across evaluation orders (follows only under the model)'
 TRUSTED = ['call-graph restricted to evaluator.py, ast_nodes.py and the registered functions']
 
